@@ -1,4 +1,6 @@
 import JunoModel.C09.ProofsIndex
+import JunoModel.C09.ProofsSpec
+import JunoModel.C09.ProofsPre
 /-!
 C09 — property theorems (statements only; helper lemmas are in `Proofs*.lean`).
 
@@ -27,6 +29,21 @@ theorem matchesKeys_spec (fk : List (List Nat)) (ek : List Nat) :
     have h' : fk.length ≤ ek.length := by omega
     rw [matchKeysGo_spec fk ek h']
     exact ⟨fun x => ⟨h', x⟩, fun ⟨_, x⟩ => x⟩
+
+/-! ## The specification -/
+
+/-- What the naive scan returns: exactly the events `chain[block].txs[tx][idx]` with `block` in
+the range that match the filter — each carrying its block / transaction / event position. -/
+theorem naive_spec (f : Filter) (chain : List Block) (lo hi : Nat) (e : Emitted) :
+    e ∈ naive f chain lo hi ↔ lo ≤ e.block ∧ e.block ≤ hi ∧ ∃ blk tx, chain[e.block]? = some blk ∧
+      blk.txs[e.tx]? = some tx ∧ tx[e.idx]? = some e.ev ∧ «matches» f e.ev = true :=
+  naive_mem_iff f chain lo hi e
+
+/-- … in chain order (block, then transaction, then event index, strictly increasing: in
+particular no event twice). -/
+theorem naive_in_chain_order (f : Filter) (chain : List Block) (lo hi : Nat) :
+    (naive f chain lo hi).Pairwise Emitted.lt :=
+  naive_sorted f chain lo hi
 
 /-! ## The index has no false negatives -/
 
@@ -221,6 +238,36 @@ theorem token_progress (cfg : Cfg) (hW : 1 ≤ cfg.W) (n : Node) (f : Filter) (f
           · exact Or.inr h
           · exact Or.inl (h (by omega)).1
 
+/-- **paging_complete with pre-confirmed blocks**: when the query range goes above the head and
+the node holds pre-confirmed blocks `pre` (oldest first, on top of the head, each with a header
+bloom covering its events), following the tokens returns the naive scan of the canonical chain
+followed by the pre-confirmed blocks; a lower bound `pre_confirmed` (the sentinel) means the newest
+pre-confirmed block (`loOf`), an upper bound `pre_confirmed` means all of them. -/
+theorem paging_complete_preconfirmed (cfg : Cfg) (hW : 1 ≤ cfg.W) (n : Node) (f : Filter)
+    (fromB toB chunk limit : Nat) (hchunk : 1 ≤ chunk) (hne : n.chain ≠ []) (hnf : NoFalseNeg cfg n)
+    (pre : List Block) (hpre : pre ≠ []) (hpwf : ∀ blk ∈ pre, ∀ it ∈ blk.items, it ∈ blk.bloom)
+    (hfit : n.chain.length - 1 + pre.length < sentinel) (fuel : Nat)
+    (hfuel : (naive f (n.chain ++ pre) (loOf fromB none (n.chain.length - 1 + pre.length))
+        (min toB (n.chain.length - 1 + pre.length))).length + (n.chain.length + pre.length) < fuel) :
+    collectPre cfg f fromB toB chunk limit (n.chain.length - 1) pre fuel n none =
+      some (naive f (n.chain ++ pre) (loOf fromB none (n.chain.length - 1 + pre.length))
+        (min toB (n.chain.length - 1 + pre.length))) := by
+  obtain ⟨hwf, hs, hc⟩ := hnf
+  have hlen : n.chain.length = (n.chain.length - 1) + 1 := by
+    cases hc' : n.chain with
+    | nil => exact absurd hc' hne
+    | cons _ _ => simp
+  have := collectPre_spec cfg f fromB toB chunk limit (n.chain.length - 1) pre hW hchunk hpre hfit hpwf fuel n none
+    hlen hwf hs hc (Or.inl rfl)
+  simp only [skipOf, wantN_zero] at this
+  rw [naive_eq] at hfuel ⊢
+  generalize (loOf fromB none (n.chain.length - 1 + pre.length)) = lo at this hfuel ⊢
+  have h1 := Nat.min_le_right toB (n.chain.length - 1 + pre.length)
+  generalize min toB (n.chain.length - 1 + pre.length) = hi at this hfuel h1 ⊢
+  apply this
+  generalize (List.flatMap (blkSel f (n.chain ++ pre)) (List.range' lo (hi + 1 - lo))).length = k at hfuel ⊢
+  omega
+
 /-! ## The property, end to end -/
 
 /-- **C09 for the repaired code**: after every history, every query paged to the end returns
@@ -299,6 +346,16 @@ example :
     (query cfgRepaired n fB 0 2 none 1 1).2 = .ok [⟨0, 0, 0, ⟨11, []⟩⟩] ⟨0, 2⟩ ∧
     (query cfgRepaired n fB 0 2 (some ⟨0, 2⟩) 1 1).2 = .ok [⟨0, 0, 2, ⟨11, []⟩⟩] ⟨2, 0⟩ ∧
     collect cfgRepaired fB 0 2 1 1 10 n none = some (naive fB n.chain 0 2) := by
+  decide
+
+-- a query into the pre-confirmed blocks, paged with chunk size 1
+example :
+    let n := run cfgRepaired Node.init [.store blkE, .store blkB]
+    let pre : List Block := [blkB, blkE, blkB]
+    (queryPre cfgRepaired n fB 0 sentinel none 1 0 1 pre).2 = .ok [⟨1, 0, 0, ⟨11, [7]⟩⟩] ⟨2, 0⟩ ∧
+    collectPre cfgRepaired fB 0 sentinel 1 0 1 pre 10 n none = some (naive fB (n.chain ++ pre) 0 4) ∧
+    collectPre cfgRepaired fB sentinel sentinel 1 0 1 pre 10 n none = some (naive fB (n.chain ++ pre) 4 4) ∧
+    naive fB (n.chain ++ pre) 0 4 = [⟨1, 0, 0, ⟨11, [7]⟩⟩, ⟨2, 0, 0, ⟨11, [7]⟩⟩, ⟨4, 0, 0, ⟨11, [7]⟩⟩] := by
   decide
 
 end Juno.C09.Props
